@@ -108,9 +108,17 @@ func init() {
 						if vpS(st.Args, "rd") == "path" {
 							target += "?rd=%2Fbye"
 						}
-						if vpS(st.Args, "fault") == "del_error" && w.redis != nil {
+						if stale := vpI(st.Args, "stale"); stale > 0 {
+							// the session is older than the refresh period when the sign-out arrives
+							nextPad = stale == 2
+							if err := w.ageSession(jar, 2*time.Hour, vpReq{}); err != nil {
+								obs["diverged"] = true
+								break
+							}
+						}
+						if flt := vpS(st.Args, "fault"); flt != "none" && w.redis != nil {
 							w.redis.fault = func(c *vpRedisCmd) *vpStoreFault {
-								if c.Op == "del" && c.Key == sessKey {
+								if flt == "outage" || (c.Op == "del" && c.Key == sessKey) {
 									return &vpStoreFault{Kind: "err_before"}
 								}
 								return nil
@@ -149,6 +157,9 @@ func init() {
 						obs["deletedAll"] = deletedAll
 						obs["deletionAttrsMatch"] = attrsMatch
 						obs["keyExists"] = sessKey != "" && w.mr != nil && w.mr.Exists(sessKey)
+						// the browser applies the response and simply goes on: is it still signed in?
+						after := w.do(vpReq{Target: "/private", Cookie: jar.header()})
+						obs["stillSignedIn"] = after.UpHits > 0
 						conc = append(conc, map[string]interface{}{"signout": target, "status": r.Status, "location": r.Location, "presented": fmt.Sprint(presented)})
 					case "replay":
 						auth := 0
